@@ -739,6 +739,9 @@ func checkB(c CaseB) *core.Violation {
 	// line is attributed to that, whatever the symptom (parse error, item swallowed
 	// by a comment, ...)
 	attribute := func(sig string) string {
+		if ap.f64quirk && strings.HasPrefix(sig, "edit|set-value|wrong-value") {
+			return "edit|set-value|wrong-value|float64-power-of-two-shortest-decimal"
+		}
 		switch ap.appendOpen {
 		case "eof":
 			return "edit|append-after-last-line-without-newline"
@@ -747,9 +750,6 @@ func checkB(c CaseB) *core.Violation {
 		}
 		if ap.braceLine {
 			return "edit|remove-first-item|takes-comment-ending-the-opening-brace-line"
-		}
-		if ap.f64quirk && strings.HasPrefix(sig, "edit|set-value|wrong-value") {
-			return "edit|set-value|wrong-value|float64-power-of-two-shortest-decimal"
 		}
 		return sig
 	}
